@@ -13,6 +13,7 @@ Exit/verdict vocabulary used by the harness runner:
 All four derive from BaseException so that `except Exception`/`except TypeError` blocks inside
 pydl cannot swallow them.
 """
+import os
 import time
 from fractions import Fraction
 import numpy as np
@@ -87,6 +88,15 @@ def _pyval(v):
         return False
     if z3.is_bv_value(v):
         return v.as_long()
+    if z3.is_fp_value(v):
+        # binary64 values travel as their bit pattern (exact, JSON-safe): {'f64': '0x...'}
+        if v.isNaN():
+            bits = 0x7ff8000000000000
+        elif v.isInf():
+            bits = (0xfff0000000000000 if v.isNegative() else 0x7ff0000000000000)
+        else:
+            bits = (int(bool(v.sign())) << (v.ebits() + v.sbits() - 1)) | (v.exponent_as_long(biased=True) << (v.sbits() - 1)) | v.significand_as_long()
+        return {'f64': '0x%016x' % bits}
     return str(v)
 
 
@@ -168,6 +178,7 @@ class Explorer(object):
         self.max_seconds = max_seconds
         self.max_violations = max_violations
         self.nonfinite = nonfinite
+        self.logic = logic
         self.solver = z3.Solver() if logic is None else z3.SolverFor(logic)
         self._keep = []
         # statistics
@@ -181,6 +192,8 @@ class Explorer(object):
         self.fresh_queries = 0
         self.domains = {}          # Int constant name -> list of still-possible values (over-approximation)
         self.domain_decided = 0
+        self.fact_decided = 0
+        self._facts = set()
         self.incremental_timeout_ms = 15000
         self.fresh_strategy = 'timeout-first'
         self._answered = self.solver
@@ -224,7 +237,7 @@ class Explorer(object):
             order = ('rlimit', 'timeout') if self.fresh_strategy == 'rlimit-first' else ('timeout', 'rlimit')
             budget_ms = self.solver_timeout_ms
             for k, strat in enumerate(order):
-                fresh = z3.Solver()
+                fresh = z3.Solver() if self.logic is None else z3.SolverFor(self.logic)
                 # (do not keep these solvers alive: retaining them slowed later queries on the same context dramatically)
                 fresh.add(self.solver.assertions())
                 fresh.add(*assumptions)
@@ -257,6 +270,72 @@ class Explorer(object):
 
     def add(self, term):
         self.solver.add(term)
+        self._note_facts(term)
+
+    # asserted comparison atoms in a canonical form: a later decision that is literally one of them
+    # (or its negation) is answered without a solver call.  Purely syntactic and sound: a fact is only
+    # recorded when it was asserted on this path.
+    def _note_facts(self, term, depth=0):
+        try:
+            if isinstance(term, bool) or depth > 3:
+                return
+            if z3.is_and(term):
+                for c in term.children():
+                    self._note_facts(c, depth + 1)
+                return
+            k = self._atom_key(term)
+            if k is not None:
+                self._facts.add(k)
+        except Exception:
+            pass
+
+    def _atom_key(self, t, negate=False):
+        from . import polynorm
+        if z3.is_not(t):
+            return self._atom_key(t.arg(0), not negate)
+        if not z3.is_app(t) or t.num_args() != 2 or t.arg(0).sort() != z3.RealSort():
+            return None
+        k = t.decl().kind()
+        if k not in (z3.Z3_OP_LE, z3.Z3_OP_GE, z3.Z3_OP_LT, z3.Z3_OP_GT):
+            return None
+        if _term_size(t, 400) >= 400:
+            return None
+        l, r = t.arg(0), t.arg(1)
+        if k in (z3.Z3_OP_GE, z3.Z3_OP_GT):
+            l, r = r, l
+        strict = k in (z3.Z3_OP_LT, z3.Z3_OP_GT)
+        try:
+            memo = {}
+            pl, pr = polynorm.to_poly(l, 2000, memo), polynorm.to_poly(r, 2000, memo)
+        except polynorm.NotPolynomial:
+            return None
+        sign = -1 if negate else 1
+        if negate:
+            strict = not strict
+        P = polynorm._add(pl, pr, -1)
+        return ('lt' if strict else 'le', tuple(sorted((m, sign * c) for m, c in P.items())))
+
+    def _implied_by_fact(self, term):
+        """True / False when `term` (resp. its negation) is one of the asserted atoms, else None"""
+        if not self._facts:
+            return None
+        try:
+            k = self._atom_key(term)
+            if k is None:
+                return None
+            if k in self._facts:
+                return True
+            kn = self._atom_key(term, True)
+            if kn in self._facts:
+                return False
+            # a strict fact implies the weak one: P < 0 gives P <= 0
+            if k[0] == 'le' and ('lt', k[1]) in self._facts:
+                return True
+            if kn[0] == 'le' and ('lt', kn[1]) in self._facts:
+                return False
+        except Exception:
+            return None
+        return None
 
     # ------------------------------------------------------------------ symbolic inputs
     def fresh_name(self, base):
@@ -327,6 +406,10 @@ class Explorer(object):
             if nt == 0:
                 self.domain_decided += 1
                 return False
+        imp = self._implied_by_fact(term)
+        if imp is not None:
+            self.fact_decided += 1
+            return imp
         self.decisions += 1
         if self.pos < len(self.prefix):
             kind, val, forced = self.prefix[self.pos]
@@ -515,6 +598,7 @@ class Explorer(object):
                 self.detail = None
                 self.hints = []
                 self.domains = {}
+                self._facts = set()
                 self.solver.push()
                 try:
                     fn(self)
